@@ -58,6 +58,13 @@ def _r32_zx64(op1, x):
         return (op1, x)
 
 
+# a shift/rotate by 0 leaves value and flags unchanged but the write to
+# a 32-bits register still clears the upper half of the 64-bits register.
+def _shift_by_0(fmap, op1, a):
+    op1, a = _r32_zx64(op1, a)
+    fmap[op1] = a
+
+
 # ------------------------------------------------------------------------------
 def i_BSWAP(i, fmap):
     fmap[rip] = fmap[rip] + i.length
@@ -913,6 +920,7 @@ def i_SHR(i, fmap):
     a = fmap(op1)
     if count._is_cst:
         if count.value == 0:
+            _shift_by_0(fmap, op1, a)
             return  # flags unchanged
         if count.value == 1:
             fmap[of] = a.bit(-1)  # MSB of a
@@ -945,6 +953,7 @@ def i_SAR(i, fmap):
     a = fmap(op1)
     if count._is_cst:
         if count.value == 0:
+            _shift_by_0(fmap, op1, a)
             return
         if count.value == 1:
             fmap[of] = bit0
@@ -978,6 +987,7 @@ def i_SHL(i, fmap):
     x = a << count
     if count._is_cst:
         if count.value == 0:
+            _shift_by_0(fmap, op1, a)
             return
         if count.value == 1:
             fmap[of] = x.bit(-1) ^ a.bit(-1)  # MSB(result) xor the new cf
@@ -1014,6 +1024,7 @@ def i_ROL(i, fmap):
     x = ROL(a, count)
     if count._is_cst:
         if count.value == 0:
+            _shift_by_0(fmap, op1, a)
             return
         fmap[cf] = x.bit(0)
         if count.value == 1:
@@ -1041,6 +1052,7 @@ def i_ROR(i, fmap):
     x = ROR(a, count)
     if count._is_cst:
         if count.value == 0:
+            _shift_by_0(fmap, op1, a)
             return
         fmap[cf] = x.bit(-1)
         if count.value == 1:
@@ -1070,6 +1082,7 @@ def i_RCL(i, fmap):
     x, carry = ROLWithCarry(a, count, fmap(cf))
     if count._is_cst:
         if count.value == 0:
+            _shift_by_0(fmap, op1, a)
             return
         fmap[cf] = carry
         if count.value == 1:
@@ -1099,6 +1112,7 @@ def i_RCR(i, fmap):
     x, carry = RORWithCarry(a, count, fmap(cf))
     if count._is_cst:
         if count.value == 0:
+            _shift_by_0(fmap, op1, a)
             return
         if count.value == 1:
             fmap[of] = a.bit(-1) ^ fmap(cf)
